@@ -30,6 +30,12 @@ class VmMath:
     def reset(self) -> None:
         self._eval_stack.clear()
 
+    def stack_size(self) -> int:
+        return self._eval_stack.size()
+
+    def truncate_stack(self, size) -> None:
+        self._eval_stack.truncate(size)
+
     def push(self, srce) -> None:
         value = None
         if isinstance(srce, Number) or srce is Operand.NULL:
